@@ -14,6 +14,7 @@ use std::marker::PhantomData;
 use plonky2::field::batch_util::{batch_add_inplace, batch_multiply_inplace};
 use plonky2::field::extension::{Extendable, FieldExtension};
 use plonky2::field::polynomial::{PolynomialCoeffs, PolynomialValues};
+use plonky2::field::ops::Square;
 use plonky2::field::types::Field;
 use plonky2::fri::oracle::PolynomialBatch;
 use plonky2::hash::keccak::KeccakHash;
@@ -243,11 +244,11 @@ fn field_batch_fixed(out: &mut Vec<(String, String)>) {
         bytes.extend(fbytes(&y));
     }
     type FE = <F as Extendable<D>>::Extension;
-    let mut e = FE::from_basefield_array([m.f(), m.f()]);
+    let mut e = <FE as FieldExtension<D>>::from_basefield_array([m.f(), m.f()]);
     for _ in 0..50 {
-        let g = FE::from_basefield_array([m.f(), m.f()]);
+        let g = <FE as FieldExtension<D>>::from_basefield_array([m.f(), m.f()]);
         e = e * g + g.square();
-        bytes.extend(fbytes(&e.to_basefield_array()));
+        bytes.extend(fbytes(&<FE as FieldExtension<D>>::to_basefield_array(&e)));
     }
     bytes.extend(fbytes(&[m.f().exp_u64(0xDEADBEEF), m.f().inverse()]));
     out.push(("field_batch/ops".into(), fnv(&bytes)));
